@@ -386,6 +386,76 @@ fn judge_views(st: &mut Stats, what: &'static str, name: &'static str, n: usize,
     }));
 }
 
+
+/// By-value regrouping moves that rely on the layout: splitting an array into two, popping and
+/// pushing at either end, concatenating.  Each is a reinterpretation of the N*size bytes as two
+/// adjacent pieces; for every layout the pieces must hold the elements a Vec would hold.
+#[inline(never)]
+fn moves_facts<T: Lay>() -> Result<(), String> {
+    use generic_array::sequence::{Concat, Lengthen, Shorten, Split};
+    fn mk<T: Lay, N: ArrayLength>(base: usize) -> GA<T, N> {
+        GA::<T, N>::generate(|i| T::make((base + i) as u8))
+    }
+    fn pr<T: Lay>(s: &[T]) -> Vec<u64> {
+        s.iter().map(|e| e.probe()).collect()
+    }
+    fn want<T: Lay>(r: core::ops::Range<usize>) -> Vec<u64> {
+        r.map(|i| T::make(i as u8).probe()).collect()
+    }
+    macro_rules! split_case {
+        ($n:literal, $k:literal) => {{
+            let (h, t): (GA<T, U<$k>>, GA<T, U<{ $n - $k }>>) = Split::<T, U<$k>>::split(mk::<T, U<$n>>(0));
+            if pr(&h) != want::<T>(0..$k) || pr(&t) != want::<T>($k..$n) {
+                return Err(format!("ContentMismatch: split of {} at {}: head {:x?}, tail {:x?}", $n, $k, pr(&h), pr(&t)));
+            }
+            let back: GA<T, U<$n>> = Concat::concat(h, t);
+            if pr(&back) != want::<T>(0..$n) {
+                return Err(format!("ContentMismatch: concat {} ++ {}", $k, $n - $k));
+            }
+        }};
+    }
+    split_case!(3, 1);
+    split_case!(3, 2);
+    split_case!(5, 1);
+    split_case!(5, 4);
+    split_case!(7, 3);
+    split_case!(12, 4);
+    split_case!(2, 0);
+    split_case!(2, 2);
+    macro_rules! pop_case {
+        ($n:literal) => {{
+            let (x, rest) = mk::<T, U<$n>>(0).pop_front();
+            if x.probe() != T::make(0).probe() || pr(&rest) != want::<T>(1..$n) {
+                return Err(format!("ContentMismatch: pop_front of {}: got {:x} and {:x?}", $n, x.probe(), pr(&rest)));
+            }
+            let (rest, y) = mk::<T, U<$n>>(0).pop_back();
+            if y.probe() != T::make($n - 1).probe() || pr(&rest) != want::<T>(0..$n - 1) {
+                return Err(format!("ContentMismatch: pop_back of {}", $n));
+            }
+            let a = mk::<T, U<$n>>(1).prepend(T::make(0));
+            if pr(&a) != want::<T>(0..$n + 1) {
+                return Err(format!("ContentMismatch: prepend to {}", $n));
+            }
+            let a = mk::<T, U<$n>>(0).append(T::make($n));
+            if pr(&a) != want::<T>(0..$n + 1) {
+                return Err(format!("ContentMismatch: append to {}", $n));
+            }
+        }};
+    }
+    pop_case!(1);
+    pop_case!(2);
+    pop_case!(3);
+    pop_case!(4);
+    pop_case!(5);
+    pop_case!(8);
+    pop_case!(9);
+    Ok(())
+}
+
+fn moves<T: Lay>(st: &mut Stats) {
+    judge_views(st, "regrouping_moves", T::NAME, 12, moves_facts::<T>);
+}
+
 /// heap placement: a Box<GenericArray<T, N>> built by every boxed constructor must sit at an
 /// address aligned as T (also when nothing is allocated: zero-sized T or N = 0), hold N
 /// elements at base + i*size, and read back what was written
@@ -502,6 +572,7 @@ macro_rules! boxed_for { ($st:expr, $maxn:expr, $T:ty; $($v:literal)*) => { $( i
 macro_rules! each_layout_boxed { ($st:expr, $maxn:expr; $([$T:ty])*) => { $( boxed_for!($st, $maxn, $T; 0 1 2 3 8 17); )* }; }
 macro_rules! views_for { ($st:expr, $maxn:expr, $T:ty; $($v:literal)*) => { $( if $v <= $maxn { views::<$T, U<$v>, $v>($st); } )* }; }
 macro_rules! unflat_for { ($st:expr, $maxn:expr, $T:ty; $($v:literal)*) => { $( if $v <= $maxn { unflat::<$T, U<$v>, $v>($st); } )* }; }
+macro_rules! each_layout_moves { ($st:expr, $maxn:expr; $([$T:ty])*) => { $( if $maxn >= 12 { moves::<$T>($st); } )* }; }
 macro_rules! each_layout_views { ($st:expr, $maxn:expr; $([$T:ty])*) => { $( { fn go(st: &mut Stats, maxn: usize) { views_for!(st, maxn, $T; 0 1 2 3 5 8 17); unflat_for!(st, maxn, $T; 1 2 3 5 8 17); } go($st, $maxn); } )* }; }
 macro_rules! tiling_lens { ($st:expr, $E:ty; $($v:literal)*) => { $( tiling::<$E, U<$v>>($st); )* }; }
 
@@ -542,6 +613,8 @@ fn main() {
     if args.part_on("views") {
         for_box_layouts!(each_layout_views; &mut st, args.maxn);
         for_quick_layouts!(each_layout_views; &mut st, args.maxn);
+        for_box_layouts!(each_layout_moves; &mut st, args.maxn);
+        for_quick_layouts!(each_layout_moves; &mut st, args.maxn);
     }
     if args.part_on("tiling") {
         tiling_all::<Tok>(&mut st);
